@@ -336,6 +336,14 @@ func Gen(prop, tier string, seed, run uint64) Plan {
 			}
 		}
 	}
+	if useConv && (prop == "C16" || r.IntN(2) == 0) {
+		// make converter jobs happen: a simple tag that matches most streams with a converter attached early
+		def := []string{"id:0:", "cbytes:1:", "sport:80,443,1337,8080,31337,53", "protocol:tcp", "sbytes:0:"}[r.IntN(5)]
+		name := []string{"service/s", "service/t"}[r.IntN(2)]
+		pre := []Op{{C: CMut, K: "AddTag", Name: name, Color: "#123456", Def: def}, {C: CMut, K: "SetConv", Name: name, Convs: []string{p.Converters[r.IntN(len(p.Converters))]}}}
+		at := r.IntN(1 + len(mutOps)/3)
+		mutOps = append(mutOps[:at], append(pre, mutOps[at:]...)...)
+	}
 	if prop == "C12" {
 		// settings and endpoints bookkeeping
 		for i := 0; i < 1+r.IntN(4); i++ {
